@@ -189,6 +189,10 @@ def tcp_scenarios(ctx, n):
                     T.api("GET", "/proxies/p/toxics")]
         elif kind == "differ":
             e2 = dict(entry, upstream="127.0.0.1:%d" % u2)
+            if rng.chance(1, 2):
+                # a toxic on the old proxy that withholds the end of the stream from the client: the replacement still drops the connection
+                ops.append(T.api("POST", "/proxies/p/toxics", {"type": rng.choice(["slow_close", "reset_peer"]), "name": "h", "stream": "downstream",
+                                                              "attributes": {"delay": 20000, "timeout": 20000}}))
             ops += [T.api("POST", "/populate", [e2]), {"op": "recv", "id": "c1", "n": 1, "ms": 1500},
                     {"op": "dial", "id": "c2", "addr": "127.0.0.1:%d" % px}, {"op": "send", "id": "c2", "n": 50},
                     {"op": "recv", "id": "c2", "n": 50, "ms": 1500}, T.api("GET", "/proxies/p/toxics")]
